@@ -506,6 +506,8 @@ pub fn build_sprite(t: &mut Tape, c: &GenCfg) -> Sprite {
             }
         }
     }
+    let mut last_image: Option<(u16, u16, Vec<u8>)> = None;
+    let mut last_xy: Option<(i16, i16)> = None;
     for f in 0..nf {
         let duration = match t.below(4) {
             0 => 100,
@@ -559,8 +561,17 @@ pub fn build_sprite(t: &mut Tape, c: &GenCfg) -> Sprite {
                             3 => (width.min(64), height.min(64)),
                             _ => (1 + t.below(c.max_cel as u32) as u16, 1 + t.below(c.max_cel as u32) as u16),
                         };
-                        let pixels = gen_pixels(t, fmt, cw as usize * ch as usize, &pal_ids, s.transparent);
-                        (CelContent::Image { w: cw, h: ch, pixels }, cw, ch, (1, 1))
+                        // sometimes repeat the previous image cel exactly (identical pixels stacked on each other
+                        // or repeated across frames: a relationship random data never produces)
+                        if let (Some((pw, ph, ppx)), true) = (&last_image, t.chance(1, 7)) {
+                            (CelContent::Image { w: *pw, h: *ph, pixels: ppx.clone() }, *pw, *ph, (1, 1))
+                        } else {
+                            let pixels = gen_pixels(t, fmt, cw as usize * ch as usize, &pal_ids, s.transparent);
+                            if pixels.len() <= 4096 {
+                                last_image = Some((cw, ch, pixels.clone()));
+                            }
+                            (CelContent::Image { w: cw, h: ch, pixels }, cw, ch, (1, 1))
+                        }
                     }
                 },
             };
@@ -584,6 +595,12 @@ pub fn build_sprite(t: &mut Tape, c: &GenCfg) -> Sprite {
             } else {
                 (offset_for(t, width, cw, c.extreme_offsets), offset_for(t, height, ch, c.extreme_offsets))
             };
+            // sometimes the same offset as the previous cel (stacked exactly)
+            let (x, y) = match (last_xy, t.chance(1, 6)) {
+                (Some(p), true) if unit == (1, 1) => p,
+                _ => (x, y),
+            };
+            last_xy = Some((x, y));
             cels.push(Cel { layer: l as u16, x, y, opacity: t.u8_biased(), content, user_data: if c.user_data { t.opt_user_data(1, 5) } else { None } });
         }
         s.frames.push(Frame { duration, cels });
@@ -592,9 +609,16 @@ pub fn build_sprite(t: &mut Tape, c: &GenCfg) -> Sprite {
     // ---- tags ----
     if c.tags && t.chance(1, 2) {
         let n = t.below(6) as usize;
-        let mut tags = Vec::new();
+        let mut tags: Vec<Tag> = Vec::new();
         for _ in 0..n {
-            tags.push(Tag { from: t.u16_biased(), to: t.u16_biased(), dir: t.below(3) as u8, repeat: t.u16_biased(), name: if c.long_names { t.string() } else { t.short_string() } });
+            if !tags.is_empty() && t.chance(1, 6) {
+                let prev: Tag = tags[tags.len() - 1].clone();
+                tags.push(prev);
+                continue;
+            }
+            let from = t.u16_biased();
+            let to = if t.chance(1, 4) { from } else { t.u16_biased() };
+            tags.push(Tag { from, to, dir: t.below(3) as u8, repeat: t.u16_biased(), name: if c.long_names { t.string() } else { t.short_string() } });
         }
         if c.user_data && n > 0 {
             let k = t.below(n as u32 + 1) as usize;
@@ -630,7 +654,7 @@ pub fn build_sprite(t: &mut Tape, c: &GenCfg) -> Sprite {
         let n = 1 + t.below(3);
         let mut used = std::collections::HashSet::new();
         for _ in 0..n {
-            let mut id = t.u32_biased();
+            let mut id = if !s.tilesets.is_empty() && t.chance(1, 3) { s.tilesets[t.below(s.tilesets.len() as u32) as usize].id } else { t.u32_biased() };
             while !used.insert(id) {
                 id = id.wrapping_add(1);
             }
